@@ -806,6 +806,9 @@ func init() {
 	reg("(*sync.Mutex).TryLock", func(i *interpreter, fr *frame, fn *ssa.Function, a []value) value {
 		return i.mutexTryLock(fr, a[0].(*value))
 	})
+	reg("(*sync.RWMutex).TryLock", func(i *interpreter, fr *frame, fn *ssa.Function, a []value) value {
+		return i.mutexTryLock(fr, a[0].(*value))
+	})
 	reg("(*sync.RWMutex).Lock", func(i *interpreter, fr *frame, fn *ssa.Function, a []value) value { i.mutexLock(fr, a[0].(*value)); return nil })
 	reg("(*sync.RWMutex).Unlock", func(i *interpreter, fr *frame, fn *ssa.Function, a []value) value {
 		i.mutexUnlock(fr, a[0].(*value))
